@@ -24,7 +24,10 @@ Missing(t) == {<<k, T>> \in (1..Len(t.tags)) \X (PosTags \cap AllFeatureTags(t))
                  /\ t.tags[k].tag # "DFLT"
                  /\ ActsOn(t, T, t.tags[k].script)
                  /\ T \notin FeatureTags(t.F, t.tags[k].tag, "dflt")}
-Known(t, x) == t.tags[x[1]].tag \notin Rng(t.declared)
+\* Known finding F-C20-1: the script is not named by a languagesystem statement although the font EXPORTS a glyph with a
+\* code point that belongs to that script alone (that is how the kern writer legitimately learns about the script)
+Known(t, x) == /\ t.tags[x[1]].tag \notin Rng(t.declared)
+               /\ \E g \in 0..(t.n - 1) : t.tags[x[1]].script \in Rng(G(t, g).single)
 Init == i = 1
 Next == /\ i <= Len(Traces)
         /\ LET t == Traces[i]  bad == {x \in Missing(t) : ~Known(t, x)}  kn == {x \in Missing(t) : Known(t, x)}
